@@ -126,7 +126,12 @@ Section WithPythonFloat.
      and all required attributes present: the parser reads it without an exception and serialising what was read gives back EXACTLY that document -
      elements, order, nesting, every text, every attribute in file order with its value *)
   Theorem C09_document_values : forall d, vvalid d -> exists e, vparse py_float d = Some e /\ vemit e = Some d.
-  Proof. exact (tables_vdoc_roundtrip py_float float_returns_float float_reads_integers rows_ok9). Qed.
+  Proof. exact (tables_vdoc_roundtrip py_float float_returns_float float_reads_integers (conj eq_refl eq_refl) rows_ok9). Qed.
+  (* the general form: instead of the three value families, every text / attribute value is individually a fixed point of "read through its ladder,
+     write with str()" (that covers decimals whose repr is their text, union values, pattern types ...; the three families above are instances:
+     DocValTables.families_text / families_attr).  Then the whole document is given back exactly. *)
+  Theorem C09_document_values_general : forall d, gvalid py_float d -> exists e, vparse py_float d = Some e /\ vemit e = Some d.
+  Proof. exact (tables_gdoc_roundtrip py_float rows_ok9). Qed.
   (* ANY document, valid or not: if the parser returns and the result serialises, then at every node the children emitted are the children read, up to
      order, and the text and attributes emitted are what serialisation makes of what the constructor and setattr accepted (vsame) ... *)
   Theorem C09_document_values_no_silent_loss : forall d e d', vparse py_float d = Some e -> vemit e = Some d' -> vsame py_float d d'.
@@ -139,6 +144,7 @@ Section WithPythonFloat.
   Proof. exact (node_payload_kept py_float). Qed.
 End WithPythonFloat.
 Print Assumptions C09_document_values.
+Print Assumptions C09_document_values_general.
 Print Assumptions C09_document_values_no_silent_loss.
 Print Assumptions C09_node_payload_kept.
 (* non-vacuity: <measure number="1"><barline location="right"><bar-style>light-heavy</bar-style></barline></measure> and
@@ -154,4 +160,10 @@ Proof.
 Qed.
 (* and a document outside the premise that the model refuses exactly like the library: an undeclared attribute aborts the parse *)
 Example C09_document_values_undeclared : vrun [] (PNode vP s_pitch ([], [("no-such", cp "x")]) []) = VNoParse.
+Proof. vm_compute. reflexivity. Qed.
+(* a decimal text and a decimal attribute meet the general premise when float() reads them as the float with that repr:
+   <measure number="1" width="92.5"><forward><duration>1.5</duration></forward></measure> (float() given as the table Python fills in) *)
+Example C09_document_values_general_example :
+  let ft := [(cp "92.5", Some (VFloat FPlain (QArith_base.Qmake 185 2) (cp "92.5"))); (cp "1.5", Some (VFloat FPlain (QArith_base.Qmake 3 2) (cp "1.5")))] in
+  gvalidb (float_table ft) (PNode vP s_measure ([], [("number", cp "1"); ("width", cp "92.5")]) [PNode vP s_forward ([], []) [PNode vP s_duration (cp "1.5", []) []]]) = true.
 Proof. vm_compute. reflexivity. Qed.
